@@ -10,6 +10,14 @@ CHECKS = {
  "C13": ("7/C13", "Hypothesis recursive value strategies x construction contexts; read-back with an independent CST->data reader", "Generated nested Python values are rendered through each construction context (incl. overwrite histories) and read back as data; equality, double-render equality and re-parse stability are checked.", TB),
  "C20": ("7/C20", "Hypothesis text/damage/valid-program generators with exception-type oracle + depth-doubling work-counter families", "Exception types are checked on arbitrary, damaged and valid inputs; growth is decided by a deterministic call-count ratio work(2d)/work(d) <= 20 over 45 construct families.", TB + " The call-event counter is the proxy for running time."),
 }
+MODEL = " The reference model (vf/model/attrs.py) is written from docs/cli.md, README and the statements of C05/C09; situations the statements leave undefined are not generated."
+CHECKS.update({
+ "C04": ("7/C04", "seeded edit histories on generated documents; byte-hunk locality oracle + comment survival + attribute-tree/wrapper oracle", "Every successful step of generated set/rm histories is checked: on canonical input the single diff hunk must lie in the region the operation may touch; comments outside it survive; all other bindings and the wrappers keep their tokens.", TB + MODEL),
+ "C05": ("7/C05", "model-based testing: seeded set/rm histories compared step by step with an independent attribute-tree reference model", "Histories of set/rm over generated documents (all wrapper shapes, path classes, both same-object and re-parse modes) are compared with the reference model after every step; well-formed edits must not be refused.", TB + MODEL),
+ "C08": ("7/C08", "Hypothesis RuleBasedStateMachine interleaving failing and succeeding edits; invariants + twin-document differential", "A rule-based state machine interleaves rejected edits of every listed class with successful ones on one object; after each rejection the exception type, the rebuilt text and a structural snapshot are checked, and a twin document that never saw the failing calls must stay identical.", TB + MODEL),
+ "C09": ("7/C09", "model-based testing with scoped-path bias: let-chain reader vs layer model", "Same engine as C05 with 80% scoped operations over 0-3 let layers: layer count, per-layer attribute trees, body and wrapper tokens are compared with the model after every step.", TB + MODEL),
+ "C19": ("7/C19", "metamorphic relations (idempotence, inverse, commutativity) over model-chosen well-formed edits", "Four algebraic laws are evaluated on canonical generated documents, on one object and with re-parse; no external oracle is needed beyond text/tree equality.", TB + MODEL),
+})
 for pid, mod in [("C01", "round trip: token-sequence equality after rebuild"), ("C03", "round trip: comment multiset/order/barrier-position oracle"), ("C06", "round trip: second-pass fixed point + CLI test"), ("C18", "round trip: lexical spacing normal-form scan")]:
     pass
 
